@@ -57,3 +57,47 @@ def witness_accumulate(r):
     e = r["expected"]
     ok = k.tolist() == e["key"] and all(abs(a - b) <= 1e-4 * max(1.0, abs(b)) for a, b in zip(v.tolist(), e["val"]))
     return {"match": bool(ok), "got": [k.tolist(), v.tolist()]}
+
+
+def _merge_step(r):
+    inp = r["inputs"]
+    key = np.array(inp["keys"], dtype=np.int64)
+    val = np.array(inp["vals"], dtype=np.float32)
+    ind, depth = int(inp["ind"]), int(inp["depth"])
+    coo = cu.CooArray(key.astype(np.int32), (2 * key + 1).astype(np.int32), val.copy(), key.copy(), np.array([ind], dtype=np.int64),
+                      np.array(inp["min"], dtype=np.int64), np.array([depth], dtype=np.int64))
+    before = {}
+    for k, v in zip(key[:ind].tolist(), val[:ind].tolist()):
+        before[k] = before.get(k, 0.0) + v
+    cu.merge_sum_duplicates(coo)
+    n2 = int(coo.ind[0])
+    bad = []
+    if not (0 <= n2 <= len(key)):
+        bad.append("fill pointer %d" % n2)
+        return coo, n2, bad
+    after = {}
+    for k, v, rr, cc in zip(coo.key[:n2].tolist(), coo.val[:n2].tolist(), coo.row[:n2].tolist(), coo.col[:n2].tolist()):
+        after[k] = after.get(k, 0.0) + v
+        if rr != k or cc != 2 * k + 1:
+            bad.append("row/col of key %d" % k)
+    for k in set(before) | set(after):
+        if abs(before.get(k, 0.0) - after.get(k, 0.0)) > 1e-4 * max(1.0, abs(before.get(k, 0.0))):
+            bad.append("key %d: %r before, %r after the merge" % (k, before.get(k, 0.0), after.get(k, 0.0)))
+    if abs(int(coo.min[0])) != n2:
+        bad.append("|min[0]| = %d but ind = %d" % (abs(int(coo.min[0])), n2))
+    return coo, n2, bad
+
+
+def replay_merge_step(r):
+    try:
+        coo, n2, bad = _merge_step(r)
+    except Exception as e:
+        return {"violation": True, "detail": "%s: %s" % (type(e).__name__, e)}
+    return {"violation": bool(bad), "detail": "; ".join(bad)[:600]}
+
+
+def witness_merge_step(r):
+    coo, n2, bad = _merge_step(r)
+    e = r["expected"]
+    ok = len(e["key"]) == n2 and np.array_equal(np.array(e["key"], dtype=np.int64), coo.key[:n2]) and np.allclose(np.array(e["val"], dtype=float), coo.val[:n2], rtol=1e-5)
+    return {"match": bool(ok), "got": {"key": coo.key[:n2].tolist(), "val": coo.val[:n2].tolist()}}
